@@ -397,8 +397,10 @@ OnRet(m, e) ==
             ELSE [m |-> meth, tag |-> 0, wrote |-> 0, reqid |-> 0, afterClose |-> FALSE, quit |-> "", filters |-> <<>>, pongs0 |-> 0, pongsW |-> -1]
       main == cls \ Aux
       common ==
-           If(meth \notin {"ReadSlices", "ReadAll", "Close"} /\ main # {} /\ ~(main \subseteq Allowed(meth)), "C14_DocumentedClass")
-        \cup If(meth \notin {"ReadSlices", "ReadAll", "Close", "Disconnect"} /\ cls # {} /\ main = {}, "C14_DocumentedClass")
+           \* Backoff returns nil exactly when a retry is not applicable: IsDeny, IsEnd, SubscribeError
+           If(e.bo # "" /\ ((e.bo = "nil") # (cls \cap {"deny", "end", "suberr"} # {})), "C14_BackoffNilIffPermanent")
+        \cup If(meth \notin {"ReadSlices", "ReadAll", "Close"} /\ main # {} /\ ~(main \subseteq Allowed(meth)), "C14_DocumentedClass")
+        \cup If(meth \notin {"ReadSlices", "ReadAll", "Close"} /\ cls # {} /\ main = {}, "C14_DocumentedClass")
         \cup If(meth \notin Persisted /\ meth \notin {"ReadSlices", "ReadAll", "Close", "Disconnect"}
                  /\ main \cap NotSubmitted # {} /\ cl.wrote > 0, "C14_NotSubmittedMeansNoByte")
         \cup If(meth \notin {"ReadSlices", "ReadAll", "Close", "Disconnect"} /\ cls = {} /\ cl.wrote = 0 /\ meth \notin Persisted,
@@ -489,12 +491,15 @@ OnAdopt(m, e) ==
   R([m EXCEPT !.gen = e.gen, !.awaitResend = TRUE, !.altered = {}],
     If(e.nwarn > 0 /\ ~m.faulty /\ m.damaged = {}, "C02_NoWarnings")
     \cup If(e.fatal /\ ~m.faulty, "C16_AdoptSucceeds")
+    \cup If(e.fatal /\ ~m.faulty /\ m.damaged = {}, "C02_AdoptReturnsClient")
     \cup If(m.altered # {} /\ e.nwarn < Cardinality(m.altered) /\ ~e.fatal, "C16_Warned"))
 
 OnDamage(m, e) ==
   R([m EXCEPT !.damaged = IF e.present THEN @ \cup {e.key} ELSE @,
-              !.altered = IF e.present /\ e.how \in {"flip", "trunc"} /\ LevelOfKey(e.key) > 0 THEN @ \cup {e.key}
-                          ELSE IF e.how = "remove" THEN @ \ {e.key} ELSE @], {})
+              !.altered = IF e.present /\ e.how \in {"flip", "trunc"} /\ (LevelOfKey(e.key) > 0 \/ e.key >= MarkFlag) THEN @ \cup {e.key}
+                          ELSE IF e.how = "remove" THEN @ \ {e.key} ELSE @,
+              \* a lost or unusable marker ends the obligation to suppress the redelivery (C04 does not speak about damage)
+              !.marks = IF e.present /\ e.key >= MarkFlag THEN @ \ {e.key - MarkFlag} ELSE @], {})
 
 OnStuck(m, e) ==
   LET meth == IF Has(m.calls, e.p) THEN m.calls[e.p].m ELSE e.m
@@ -575,6 +580,9 @@ ObsStep(m, e) ==
     [] e.e = "panic" -> R(m, {"C13_NoPanic"})
     [] e.e = "nodeadline" -> R(m, {"C13_BoundedWait"})
     [] e.e = "harness-panic" -> R(m, {"Harness_Panic"})
+    \* ReadBackoff after an error of ReadSlices: nil exactly for ErrClosed, else closed within the configured bounds
+    [] e.e = "backoff" -> R(m, If(e.nil # e.closed, "C14_BackoffNilIffPermanent")
+                              \cup If(~e.closed /\ ~e.nil /\ e.late, "C10_BackoffWithinBounds"))
     [] e.e = "final" -> OnFinal(m, e)
     [] OTHER -> R(m, {})
 =============================================================================
